@@ -216,5 +216,8 @@ def run(R):
     # ---- ESCAPE / UNWIND
     common.escape_rule(R, ro, "C07.ESCAPE", ("step", "provider", "flush"), "otherwise suspended tasks keep their overrides active")
     common.unwind_rule(R, ro, "C07.UNWIND")
+    # a task that stays in the computation after an unwind (the executing one and those below it) with a stale flag is taken for
+    # "blocked, dependencies already scheduled": its contexts are paused and resumed underneath the executing task's override
+    common.unwind_flag_reset(R, ro, "C07.UNWIND-FLAG")
     R.require_min("C07.DIRECTION", 3)
     R.require_min("C07.SAVE-RESTORE", 10)
